@@ -3,6 +3,7 @@ C18 — Numbers keep their exact value through the codec and are ordered by that
 -/
 import JsonbModel.Proofs.NumCodec
 import JsonbModel.Proofs.DecTotal
+import JsonbModel.Proofs.NumOrd
 
 namespace Jsonb.Props
 open Jsonb
@@ -50,6 +51,51 @@ theorem C18_view_u64 (n : Num) (u : Nat) (h : Num.asU64 n = some u) :
   | int j => simp [Num.asU64] at h; right; exact ⟨j, rfl, by omega⟩
   | uint w => simp [Num.asU64] at h; simp [h]
   | float b => simp [Num.asU64] at h
+
+/-! ### ordering: `Num.cmp` is the literal model of `impl Ord for Number` (NumOrd.lean);
+`ExtVal.cmp ∘ Num.val` is the mathematical order of the exact values, NaN greatest. -/
+
+/-- the implementation order IS the exact-value order, across the three representations -/
+theorem C18_order_is_value_order (a b : Num) (ha : a.WF) (hb : b.WF) :
+    Num.cmp a b = ExtVal.cmp (Num.val a) (Num.val b) := Num.cmp_eq_spec a b ha hb
+
+/-- hence a total order: reflexive, antisymmetric, transitive -/
+theorem C18_order_refl (a : Num) (ha : a.WF) : Num.cmp a a = .eq := Num.cmp_refl a ha
+theorem C18_order_antisymm (a b : Num) (ha : a.WF) (hb : b.WF) :
+    Num.cmp b a = (Num.cmp a b).swap := Num.cmp_antisymm a b ha hb
+theorem C18_order_trans (a b c : Num) (ha : a.WF) (hb : b.WF) (hc : c.WF)
+    (h1 : Num.cmp a b ≠ .gt) (h2 : Num.cmp b c ≠ .gt) : Num.cmp a c ≠ .gt :=
+  Num.cmp_trans a b c ha hb hc h1 h2
+theorem C18_eq_trans (a b c : Num) (ha : a.WF) (hb : b.WF) (hc : c.WF)
+    (h1 : Num.cmp a b = .eq) (h2 : Num.cmp b c = .eq) : Num.cmp a c = .eq :=
+  Num.cmp_eq_trans a b c ha hb hc h1 h2
+
+/-- a signed and an unsigned integer are equal exactly when they are the same integer -/
+theorem C18_int_uint_eq (i : Int) (n : Nat) : Num.cmp (.int i) (.uint n) = .eq ↔ i = n :=
+  Num.cmp_int_uint_eq_iff i n
+/-- an integer and a float are equal only if the float's exact value is that integer -/
+theorem C18_int_float_eq (i : Int) (b : Nat) (hi : (Num.int i).WF) (hb : (Num.float b).WF) :
+    Num.cmp (.int i) (.float b) = .eq ↔ (F64.val b).isInt i := Num.cmp_int_float_eq_iff i b hi hb
+theorem C18_uint_float_eq (n : Nat) (b : Nat) (hn : (Num.uint n).WF) (hb : (Num.float b).WF) :
+    Num.cmp (.uint n) (.float b) = .eq ↔ (F64.val b).isInt n := Num.cmp_uint_float_eq_iff n b hn hb
+/-- NaN is equal to itself (any payload) and greatest -/
+theorem C18_nan_eq (a b : Nat) (ha : F64.isNaN a = true) (hb : F64.isNaN b = true) :
+    Num.cmp (.float a) (.float b) = .eq := Num.cmp_nan_nan a b ha hb
+theorem C18_nan_greatest (a : Num) (b : Nat) (ha : a.WF) (hb : (Num.float b).WF)
+    (hn : F64.isNaN b = true) : Num.cmp a (.float b) ≠ .gt := Num.cmp_nan_greatest a b ha hb hn
+
+/-- the f64 view of an unsigned integer is the nearest double: its exact value `rval n` is
+within half an ulp of `n` (ties to even by construction), exact below 2^53, monotone -/
+theorem C18_view_f64 (n : Nat) (hn : n < 18446744073709551616) :
+    (F64.val (Num.asF64 (.uint n))).isInt (F64.rval n) ∧
+    2 * (F64.rval n - n) ≤ 2 ^ (Nat.log2 n - 52) ∧ 2 * (n - F64.rval n) ≤ 2 ^ (Nat.log2 n - 52) ∧
+    (n < 9007199254740992 → F64.rval n = n) := Num.asF64_uint n hn
+theorem C18_view_f64_mono (n m : Nat) (h : n ≤ m) : F64.ofNatRNE n ≤ F64.ofNatRNE m :=
+  F64.ofNatRNE_mono n m h
+
+/-- the defect repaired by the `fix:` commit: 2^53+1 is greater than 2^53.0, 2^53 equals it -/
+example : Num.cmp (.uint 9007199254740993) (.float 0x4340000000000000) = .gt := by decide
+example : Num.cmp (.uint 9007199254740992) (.float 0x4340000000000000) = .eq := by decide
 
 example : (Num.int (-9223372036854775808)).WF ∧ (Num.float 0xFFF8000000000001).WF := by decide
 
